@@ -3,8 +3,9 @@ C04 — helper lemmas, part 6: lambda nodes and the groups that share them.
 `evalN_pres`: a generic "the state only moves along R" induction over the evaluator; instances
 `evalN_stateless` (an expression without stateful functions leaves the whole state as it was) and
 `evalN_lams_fixed` (when no lambda node has a stateful body, no lambda node's state ever changes).
-`World.run` (what the code does: cache and lambda-node states shared by all `CopyReset` copies) against `refRun`
-(every group its own histories): they agree when one group asks, or when no nested lambda is stateful.
+`World.run` (what the code does since dcda92d: every `CopyReset` copy its own functions, lambda nodes and the node
+evaluators above them; everything else shared) against `refRun` (every group its own histories): they agree for every
+interleaving of the groups (`world_agree`); `mix_inv`: what a copy sees is a cache the evaluator can be in.
 -/
 import Kap.Proofs.C04Ref
 namespace Kap.C04
@@ -300,52 +301,105 @@ theorem askable_spec {e : Expr F} {q : Question F} (h : askable ctx e q = true) 
     · cases h
   · cases h
 
-/-- one question asked of a world whose asking group is in step with its reference history. -/
+/-- what one copy sees is a cache the evaluator can be in: the invariant of `cache_transparent` holds position by
+position, whichever of the two trees a position is read from. -/
+theorem mix_inv (e : Expr F) : ∀ own sh : Cache, Inv ctx e own → Inv ctx e sh → Inv ctx e (mixCache e own sh) := by
+  induction e with
+  | lit v => intro _ _ _ _; trivial
+  | ref n => intro _ _ _ _; trivial
+  | call0 fn => intro _ _ _ _; trivial
+  | callMany fn => intro _ _ _ _; trivial
+  | lam i e ih =>
+    intro own sh ho hs
+    simp only [mixCache, Inv, k1_node] at ho hs ⊢
+    exact ih _ _ ho hs
+  | un op e ih =>
+    intro own sh ho hs
+    simp only [mixCache]
+    split
+    · simp only [Inv, k1_node] at ho hs ⊢
+      exact ih _ _ ho hs
+    · exact hs
+  | bin op l r ihl ihr =>
+    intro own sh ho hs
+    simp only [mixCache]
+    split
+    · simp only [Inv, k1_node, k2_node, fn_node] at ho hs ⊢
+      exact ⟨ho.1, ihl _ _ ho.2.1 hs.2.1, ihr _ _ ho.2.2 hs.2.2⟩
+    · exact hs
+  | call1 fn a ih =>
+    intro own sh ho hs
+    simp only [mixCache]
+    split
+    · simp only [Inv, k1_node] at ho hs ⊢
+      exact ih _ _ ho hs
+    · exact hs
+  | call2 fn a b iha ihb =>
+    intro own sh ho hs
+    simp only [mixCache]
+    split
+    · simp only [Inv, k1_node, k2_node] at ho hs ⊢
+      exact ⟨iha _ _ ho.1 hs.1, ihb _ _ ho.2 hs.2⟩
+    · exact hs
+  | call3 fn a b d iha ihb ihd =>
+    intro own sh ho hs
+    simp only [mixCache]
+    split
+    · simp only [Inv, k1_node, k2_node, k3_node] at ho hs ⊢
+      exact ⟨iha _ _ ho.1 hs.1, ihb _ _ ho.2.1 hs.2.1, ihd _ _ ho.2.2 hs.2.2⟩
+    · exact hs
+  | call4 fn a b d e iha ihb ihd ihe =>
+    intro own sh ho hs
+    simp only [mixCache]
+    split
+    · simp only [Inv, k1_node, k2_node, k3a_node, k3b_node] at ho hs ⊢
+      exact ⟨iha _ _ ho.1 hs.1, ihb _ _ ho.2.1 hs.2.1, ihd _ _ ho.2.2.1 hs.2.2.1, ihe _ _ ho.2.2.2 hs.2.2.2⟩
+    · exact hs
+
+/-- the invariant of a world: every tree it keeps is a cache the evaluator can be in. -/
+def WInv (e : Expr F) (w : World F) : Prop := Inv ctx e w.shared ∧ ∀ g, Inv ctx e (w.own g)
+
+/-- the functions copy `g` evaluates with. -/
+def World.state (w : World F) (g : Nat) : FnState F := { toFnBase := w.groups g, lams := w.lams g }
+
+theorem world_cacheOf_inv (e : Expr F) (w : World F) (h : WInv ctx e w) (g : Nat) : Inv ctx e (w.cacheOf e g) :=
+  mix_inv ctx e _ _ (h.2 g) h.1
+
+/-- one question asked of a world whose asking copy is in step with its reference history: the answer is the
+reference's, the world stays well formed, the asking copy stays in step and NO OTHER copy's functions move. -/
 theorem world_step_agree (hT : TblOK ctx.tbl) (hF : FnOK ctx) (e : Expr F) (hwf : noMissingLit e = true)
-    (w : World F) (q : Question F) (h : Hist F) (hinv : Inv ctx e w.cache)
-    (hr : StateRel ctx { toFnBase := w.groups q.1, lams := w.lams } h) (hq : askable ctx e q = true) :
+    (w : World F) (q : Question F) (h : Hist F) (hinv : WInv ctx e w)
+    (hr : StateRel ctx (w.state q.1) h) (hq : askable ctx e q = true) :
     (w.step ctx e q.1 q.2.1 q.2.2).1 = (valRef ctx q.2.2 e h).1 ∧
-    Inv ctx e (w.step ctx e q.1 q.2.1 q.2.2).2.cache ∧
-    StateRel ctx { toFnBase := (w.step ctx e q.1 q.2.1 q.2.2).2.groups q.1, lams := (w.step ctx e q.1 q.2.1 q.2.2).2.lams }
-      (valRef ctx q.2.2 e h).2 := by
+    WInv ctx e (w.step ctx e q.1 q.2.1 q.2.2).2 ∧
+    StateRel ctx ((w.step ctx e q.1 q.2.1 q.2.2).2.state q.1) (valRef ctx q.2.2 e h).2 ∧
+    ∀ g, g ≠ q.1 → (w.step ctx e q.1 q.2.1 q.2.2).2.state g = w.state g := by
   obtain ⟨t, ht, hp⟩ := askable_spec ctx hq
-  obtain ⟨p1, p2, p3⟩ := runPath_eq ctx q.2.2 q.2.1 e w.cache { toFnBase := w.groups q.1, lams := w.lams } hinv
+  have hc := world_cacheOf_inv ctx e w hinv q.1
+  obtain ⟨p1, p2, p3⟩ := runPath_eq ctx q.2.2 q.2.1 e (w.cacheOf e q.1) (w.state q.1) hc
   obtain ⟨q1, q2⟩ := runPathN_agree ctx q.2.2 hT hF e q.2.1 t _ h hwf hr ht hp
-  refine ⟨p1.trans q1, p3, ?_⟩
-  simp only [World.step, if_true]
-  rw [← p2] at q2
-  exact q2
+  refine ⟨p1.trans q1, ⟨p3, ?_⟩, ?_, ?_⟩
+  · intro g
+    simp only [World.step]
+    split
+    · exact p3
+    · exact hinv.2 g
+  · simp only [World.step, World.state, if_true]
+    rw [← p2] at q2
+    exact q2
+  · intro g hg
+    simp only [World.step, World.state, hg, if_false]
 
-/-- the shared world answers as the reference while ONE group asks. -/
-theorem world_one_group (hT : TblOK ctx.tbl) (hF : FnOK ctx) (e : Expr F) (hwf : noMissingLit e = true) (g : Nat)
-    (qs : List (Question F)) : (∀ q ∈ qs, q.1 = g) → (∀ q ∈ qs, askable ctx e q = true) →
-    ∀ (w : World F) (hs : Nat → Hist F), Inv ctx e w.cache →
-      StateRel ctx { toFnBase := w.groups g, lams := w.lams } (hs g) →
-      World.run ctx e w qs = refRun ctx e hs qs := by
-  induction qs with
-  | nil => intro _ _ w hs _ _; rfl
-  | cons q rest ih =>
-    intro hg hq w hs hinv hr
-    have hqg : q.1 = g := hg q (List.mem_cons_self ..)
-    obtain ⟨a1, a2, a3⟩ := world_step_agree ctx hT hF e hwf w q (hs q.1) hinv (hqg ▸ hr) (hq q (List.mem_cons_self ..))
-    simp only [World.run, refRun]
-    rw [a1]
-    congr 1
-    apply ih (fun x hx => hg x (List.mem_cons_of_mem _ hx)) (fun x hx => hq x (List.mem_cons_of_mem _ hx)) _ _ a2
-    simp only [hqg, if_true] at a3 ⊢
-    exact a3
-
-/-- the shared world answers as the reference for ANY interleaving of groups when no nested lambda is stateful. -/
-theorem world_stateless_lams (hT : TblOK ctx.tbl) (hF : FnOK ctx) (e : Expr F) (hwf : noMissingLit e = true)
-    (hl : statefulLam e = false) (qs : List (Question F)) : (∀ q ∈ qs, askable ctx e q = true) →
-    ∀ (w : World F) (hs : Nat → Hist F), Inv ctx e w.cache →
-      (∀ g, StateRel ctx { toFnBase := w.groups g, lams := w.lams } (hs g)) →
+/-- the copies answer as the reference — every group its own histories — for ANY interleaving of the groups. -/
+theorem world_agree (hT : TblOK ctx.tbl) (hF : FnOK ctx) (e : Expr F) (hwf : noMissingLit e = true)
+    (qs : List (Question F)) : (∀ q ∈ qs, askable ctx e q = true) →
+    ∀ (w : World F) (hs : Nat → Hist F), WInv ctx e w → (∀ g, StateRel ctx (w.state g) (hs g)) →
       World.run ctx e w qs = refRun ctx e hs qs := by
   induction qs with
   | nil => intro _ w hs _ _; rfl
   | cons q rest ih =>
     intro hq w hs hinv hr
-    obtain ⟨a1, a2, a3⟩ := world_step_agree ctx hT hF e hwf w q (hs q.1) hinv (hr q.1) (hq q (List.mem_cons_self ..))
+    obtain ⟨a1, a2, a3, a4⟩ := world_step_agree ctx hT hF e hwf w q (hs q.1) hinv (hr q.1) (hq q (List.mem_cons_self ..))
     simp only [World.run, refRun]
     rw [a1]
     congr 1
@@ -355,17 +409,75 @@ theorem world_stateless_lams (hT : TblOK ctx.tbl) (hF : FnOK ctx) (e : Expr F) (
     · subst hg
       simp only [if_true]
       exact a3
-    · have hlams : (w.step ctx e q.1 q.2.1 q.2.2).2.lams = w.lams := by
-        simp only [World.step]
-        rw [(runPath_eq ctx q.2.2 q.2.1 e w.cache _ hinv).2.1]
-        exact runPathN_lams_fixed ctx q.2.2 e hl q.2.1 _
-      rw [hlams]
-      simp only [World.step, hg, if_false]
+    · rw [a4 g hg]
+      simp only [hg, if_false]
       exact hr g
 
-theorem world_init_rel (e : Expr F) (g : Nat) :
-    StateRel ctx { toFnBase := (World.init ctx e).groups g, lams := (World.init ctx e).lams } ({} : Hist F) :=
+theorem world_init_inv (e : Expr F) : WInv ctx e (World.init ctx e) :=
+  ⟨compile_inv ctx e, fun _ => compile_inv ctx e⟩
+
+theorem world_init_rel (e : Expr F) (g : Nat) : StateRel ctx ((World.init ctx e).state g) ({} : Hist F) :=
   stateRel_init ctx
+
+/-- `CopyReset` at any time keeps the world well formed and puts the new copy in step with the empty history. -/
+theorem world_copy_inv (e : Expr F) (w : World F) (k : Nat) (h : WInv ctx e w) : WInv ctx e (w.copy ctx k) := by
+  refine ⟨h.1, fun g => ?_⟩
+  simp only [World.copy]
+  split
+  · exact h.2 0
+  · exact h.2 g
+
+theorem world_copy_rel (w : World F) (k : Nat) : StateRel ctx ((w.copy ctx k).state k) ({} : Hist F) := by
+  simp only [World.copy, World.state, if_true]
+  exact stateRel_init ctx
+
+/-- The reference answers to questions and `CopyReset`s: a copy made by `CopyReset` starts with empty histories. -/
+def refRunOps (e : Expr F) : (Nat → Hist F) → List (WOp F) → List (Outcome (Value F))
+  | _, [] => []
+  | hs, .ask q :: rest =>
+    (valRef ctx q.2.2 e (hs q.1)).1 ::
+      refRunOps e (fun j => if j = q.1 then (valRef ctx q.2.2 e (hs q.1)).2 else hs j) rest
+  | hs, .copy k :: rest => refRunOps e (fun j => if j = k then {} else hs j) rest
+
+def WOp.askable (e : Expr F) : WOp F → Bool
+  | .ask q => Kap.C04.askable ctx e q
+  | .copy _ => true
+
+/-- `world_agree` with `CopyReset` at any time. -/
+theorem world_agree_ops (hT : TblOK ctx.tbl) (hF : FnOK ctx) (e : Expr F) (hwf : noMissingLit e = true)
+    (ops : List (WOp F)) : (∀ o ∈ ops, o.askable ctx e = true) →
+    ∀ (w : World F) (hs : Nat → Hist F), WInv ctx e w → (∀ g, StateRel ctx (w.state g) (hs g)) →
+      World.runOps ctx e w ops = refRunOps ctx e hs ops := by
+  induction ops with
+  | nil => intro _ w hs _ _; rfl
+  | cons o rest ih =>
+    intro hq w hs hinv hr
+    cases o with
+    | ask q =>
+      have hqa : askable ctx e q = true := hq (.ask q) (List.mem_cons_self ..)
+      obtain ⟨a1, a2, a3, a4⟩ := world_step_agree ctx hT hF e hwf w q (hs q.1) hinv (hr q.1) hqa
+      simp only [World.runOps, refRunOps]
+      rw [a1]
+      congr 1
+      apply ih (fun x hx => hq x (List.mem_cons_of_mem _ hx)) _ _ a2
+      intro g
+      by_cases hg : g = q.1
+      · subst hg
+        simp only [if_true]
+        exact a3
+      · rw [a4 g hg]
+        simp only [hg, if_false]
+        exact hr g
+    | copy k =>
+      simp only [World.runOps, refRunOps]
+      apply ih (fun x hx => hq x (List.mem_cons_of_mem _ hx)) _ _ (world_copy_inv ctx e w k hinv)
+      intro g
+      by_cases hg : g = k
+      · subst hg
+        simp only [if_true]
+        exact world_copy_rel ctx w g
+      · simp only [World.copy, World.state, hg, if_false]
+        exact hr g
 
 end
 end Kap.C04
